@@ -27,5 +27,8 @@ let () = run_protocol [
       VV (std_bins_kw o (gb ll) (gf r) (gm pos) (if gb hb then Some (gn bn) else None) (if gb hm then Some (gf md) else None)) | _ -> failwith "arity");
   "pre_edges", (function [ll; r; e] -> VV (pre_edges o (gb ll) (gf r) (gv e)) | _ -> failwith "arity");
   "centers", (function [e] -> VV (centers o (gv e)) | _ -> failwith "arity");
+  "axis_mask", (function [nd; own; f] -> rzm (axis_mask o (gf nd) (gbm own) (gm f)) | _ -> failwith "arity");
+  "axis_masked", (function [nd; own; f] -> VB (axis_masked o (gf nd) (gbm own) (gm f)) | _ -> failwith "arity");
+  "axis_estimate", (function [nd; own; f; et] -> VV (axis_estimate o (gf nd) (gbm own) (gm f) (gz et)) | _ -> failwith "arity");
   "generate_grid", (function axes -> VM (generate_grid o (List.map gv axes)));
 ]
